@@ -595,8 +595,19 @@ impl Machine {
                 .expect("dsp function not found"),
         );
         if let Some(plan) = patch_plan {
+            // The state storage is sized from the dsp skeleton by the first dsp call; before that
+            // (or after a resize to a smaller program) it can be shorter than the layout the patch
+            // plan addresses. Cells that do not exist yet are zero.
+            let mut old_storage = self.global_states.rawdata.clone();
+            let old_total_size = self
+                .prog
+                .get_dsp_state_skeleton()
+                .map_or(0, |s| s.total_size() as usize);
+            if old_storage.len() < old_total_size {
+                old_storage.resize(old_total_size, 0);
+            }
             new_vm.global_states.rawdata =
-                state_tree::apply_state_storage_patch_plan(&self.global_states.rawdata, &plan);
+                state_tree::apply_state_storage_patch_plan(&old_storage, &plan);
         } else {
             log::info!("No state structure change detected. Just copies buffer");
             new_vm.global_states.rawdata = self.global_states.rawdata.clone();
